@@ -62,6 +62,26 @@ CHECKS = {
             "The adversary's node runs a real client for the honest protocol steps; at drawn points its outgoing update message is edited (40+ kinds of edits of state, signature, actor, locked sub-allocations, debit/credit distribution, index maps, signed virtual states), re-signed with its key, passed through the serializer and delivered. The honest side's handler accepts everything. Oracle: the honest client countersigned (acceptance message on the bus or state enabled) only if an independent predicate written from the property statement accepts the update for its class (ordinary / sub-channel funding / settlement / virtual funding / virtual settlement as hub).",
             "The acceptability predicate (c07.go, c07v.go) is the trusted base. Three-party runs use the asynchronous bus only (the hub answers while holding a std mutex, rule R3).",
             "6/C07"),
+    "C12": ("world", "exploration",
+            "three-party world; seeded sequences of 1-6 decodable hostile envelopes (70 kinds over all request and response types, from the channel counterparty or a stranger) while the victim optionally holds its machine lock; process survival + bounded liveness probes on the fake clock",
+            "Hostile envelopes are built at struct level (dimension mismatches, nil/empty transactions, short/long parent lists and index maps, answers to requests never made or pending, correct signatures over inconsistent content), passed through the run's serializer (native or protobuf; an envelope that cannot be encoded or decoded is outside the quantifier) and delivered at drawn instants, also while the victim's machine lock is held for 3 s or 12 s by a pending own request. Oracle: the worker process survives (a dead worker is replayed in a fresh process and reported with the panic site), and after the last message and 30 simulated seconds every honest probe (Phase, Update with a 60 s context on the channel with an honest third client and on the channel with the adversary's address) returns within 120 simulated seconds with anything but 'could not lock the machine mutex'. A simulation stalled on a mutex inside go-perun is reported as lock-up as well.",
+            "The adversary's address is served by a real client that answers probes honestly but never sync messages (two clients running the library's sync handler bounce replies forever; noted in DESIGN). Runs are capped at 20000 seam events.",
+            "6/C12"),
+    "C13": ("link", "fault_enumeration",
+            "truncation at every offset, bit flips, length/count/backend-id/type field overwrites, splices and random bytes on the decoders' input stream; protobuf-level structural mutations; child processes under an address-space limit",
+            "Well-formed encodings of every wire type are corrupted by link/disk style faults (all truncation offsets enumerated for messages up to 2 KiB, others sampled) and fed to the native and protobuf envelope decoders and each value decoder. Oracle: a value or an error, never a panic, never a dead decoder process (out-of-memory under a 32 GiB address space limit counts); successful decodes respect the documented limits; dimension fields above the limit are rejected.",
+            "Value shapes are seeded input generation (stated in the evidence rule). The 32 GiB threshold is an assumption: no deployment hands that much memory to decoding a message of a few hundred bytes.",
+            "6/C13"),
+    "C14": ("link", "exploration",
+            "streams of 1-20 concatenated seeded values of every wire type through both serializers; exact consumption, structural equality, byte-stable native re-encoding, signature and ID survival, serializer agreement",
+            "Seeded values of all 17 message types and all serialisable channel values (full shape space of the property) are written back to back on one simulated link and decoded in order; each decode must yield an equal value (harness's own field-by-field comparison), stop exactly at the end of its bytes, re-encode natively to the same bytes, keep signatures verifying and IDs equal; envelopes through protobuf must agree with the native result. The world engines additionally re-serialise every envelope of every run with the run's serializer.",
+            "Input generation, not enumeration. Only backend id 0 exists in this repository, so multi-entry address maps are not exercised.",
+            "6/C14"),
+    "C16": ("link", "fault_enumeration",
+            "read/write chunk schedules (single bytes, segments, field boundaries +-1, random partitions, all single splits of short streams) on an open simulated link under wire/net ioConn with both serializers",
+            "1-10 consecutive envelopes are sent with the real ioConn.Send and read with ioConn.Recv under chunking schedules; every envelope must decode, in order, to what was sent, and identically under any two schedules. All single-split positions are enumerated for streams up to 1 KiB, other partitions are sampled.",
+            "The stream stays open (a reader reporting EOF together with the last bytes is a closed connection, which the native codec treats as an error by design).",
+            "6/C16"),
 }
 
 NOT_YET = {}
